@@ -29,7 +29,7 @@ ID = "C17"
 LEVEL = "fault_enumeration"
 ANCHORS = ["prov.model:ProvDocument.serialize"]
 NAMES = ["plain.out", "with space.out", "ünï-cødé.out", "a#b.out", "x?y=1.out", "semi;colon.out", "c:d.out", "per%20cent.out", "sub/dir.out",
-         "ABS", "trailing.", "file:REL", "dotted..name", "~tilde.out", "FILEURL", "run:1.out", "prov-2.0:out file.out", "http:x.out", "+plus.out"]
+         "ABS", "trailing.", "file:REL", "dotted..name", "~tilde.out", "FILEURL", "run:1.out", "prov-2.0:out file.out", "http:x.out", "+plus.out", "LINK/../via-symlink.out"]
 FORMATS = ["json", "xml", "provn", "rdf"]
 _audit = {"on": False, "log": []}
 
@@ -115,6 +115,12 @@ def resolve_name(kind, box):
         return "file:relurl.out", os.path.join(box, "relurl.out")
     if kind == "sub/dir.out":
         os.makedirs(os.path.join(box, "sub"), exist_ok=True)
+    if kind == "LINK/../via-symlink.out":
+        # LINK -> store/deep : the operating system resolves LINK/.. to store/, a lexical normalisation would say "."
+        os.makedirs(os.path.join(box, "store", "deep"), exist_ok=True)
+        if not os.path.islink(os.path.join(box, "LINK")):
+            os.symlink(os.path.join("store", "deep"), os.path.join(box, "LINK"))
+        return kind, os.path.join(box, "store", "via-symlink.out")
     return kind, os.path.join(box, kind)
 
 
@@ -170,6 +176,47 @@ class FaultyStream:
     def __exit__(self, *a):
         self._r.close()
         return False
+
+
+class QuotaRaw(io.RawIOBase):
+    """A raw binary file that behaves like a disk filling up: it accepts `quota` more bytes in total -- the write that crosses
+    the limit is a *short write* (returns fewer bytes than given, as write(2) does) -- and fails with ENOSPC afterwards."""
+
+    def __init__(self, fd, quota, counter):
+        self._fd, self._left, self._c = fd, quota, counter
+
+    def writable(self):
+        return True
+
+    def fileno(self):
+        return self._fd
+
+    def write(self, data):
+        self._c[0] += 1
+        data = bytes(data)
+        if self._left <= 0:
+            raise OSError(28, "No space left on device (injected: quota exhausted)")
+        n = os.write(self._fd, data[: self._left])
+        self._left -= n
+        return n
+
+    def close(self):
+        if not self.closed:
+            try:
+                os.close(self._fd)
+            finally:
+                super().close()
+
+
+def quota_fdopen(quota, counter):
+    """Replacement for os.fdopen honouring the caller's buffering choice: buffered callers get io.BufferedWriter over the
+    quota-limited raw file (which retries short writes and surfaces ENOSPC), unbuffered callers get the raw file itself."""
+    def fdopen(fd, mode="r", buffering=-1, *a, **k):
+        raw = QuotaRaw(fd, quota, counter)
+        if buffering == 0:
+            return raw
+        return io.BufferedWriter(raw, buffer_size=buffering if buffering and buffering > 1 else io.DEFAULT_BUFFER_SIZE)
+    return fdopen
 
 
 def reference_bytes(doc, fmt):
@@ -241,6 +288,8 @@ def run_inprocess(ctx, case, problems):
             try:
                 if fault and fault[0] == "write":
                     os.fdopen = lambda fd, *a, **k: FaultyStream(orig_fdopen(fd, *a, **k), fault[1], writes)
+                elif fault and fault[0] == "quota":
+                    os.fdopen = quota_fdopen(fault[1], writes)
                 else:
                     os.fdopen = lambda fd, *a, **k: FaultyStream(orig_fdopen(fd, *a, **k), None, writes)
                 if fault and fault[0] == "move":
@@ -288,6 +337,8 @@ def run_inprocess(ctx, case, problems):
                         ctx.count("failpoint_not_reached")
                     elif fault[0] != "line":
                         ctx.count("fault_swallowed.%s" % fault[0])
+                        if fault[0] == "quota":
+                            problems.append({"fault": label, "problem": "the file system accepted only %d of %d bytes, yet the call returned normally" % (fault[1], len(ref))})
                     # an operation that completes despite the fault must still be exact
                     if after.get(dest) is None or not same_serialisation(fmt, open(dest, "rb").read(), ref, doc):
                         problems.append({"fault": label, "problem": "call returned normally but the destination does not hold the serialisation"})
@@ -312,6 +363,12 @@ def run_inprocess(ctx, case, problems):
         attempt(("write", k))
         if problems:
             return injected
+    # disk-full plan at the raw level: the file accepts q bytes, the write crossing the limit is a short write, then ENOSPC
+    for q in sorted({0, 1, len(ref) // 2, max(0, len(ref) - 1)}):
+        if q < len(ref):
+            attempt(("quota", q))
+            if problems:
+                return injected
     attempt(("move", 1))
     for line in LineFailpoint.lines_of(pm.ProvDocument.serialize):
         if problems:
@@ -516,7 +573,7 @@ def replay(ctx, rec):
 def floors(counters, tier, extra):
     out = []
     need = 20 if tier == "quick" else 200
-    for k in ("clean_runs", "faults.write", "faults.move", "faults.line"):
+    for k in ("clean_runs", "faults.write", "faults.quota", "faults.move", "faults.line"):
         if counters.get(k, 0) < need * 4:
             out.append("%s only %d" % (k, counters.get(k, 0)))
     for n in NAMES:
